@@ -151,15 +151,21 @@ fn nan_origins(ctx: &Context, order: &[Node], q: Point3<f32>) -> Vec<(String, bo
     out
 }
 
-fn check_prog(p: &Prog, seed: u64, tier: Tier, st: &mut Stats) -> Option<(String, String, Value)> {
-    check_prog_(p, seed, tier, st, true)
+fn check_prog(p: &Prog, seed: u64, tier: Tier, st: &mut Stats, view_scale: f32) -> Option<(String, String, Value)> {
+    check_prog__(p, seed, tier, st, true, view_scale)
+}
+
+fn check_prog_(p: &Prog, seed: u64, tier: Tier, st: &mut Stats, dual_normals: bool) -> Option<(String, String, Value)> {
+    check_prog__(p, seed, tier, st, dual_normals, 1.0)
 }
 
 /// `dual_normals`: judge normals against the f64 dual-number gradient (CSG
 /// scenes, well conditioned); otherwise against the interpreter's gradient
 /// evaluator on the unsimplified shape (random expressions, where f32 and
 /// f64 derivatives legitimately differ by conditioning)
-fn check_prog_(p: &Prog, seed: u64, tier: Tier, st: &mut Stats, dual_normals: bool) -> Option<(String, String, Value)> {
+/// `view_scale`: the model lives at this scale (see `shape::rescale`); the
+/// view matrix maps the world cube onto it
+fn check_prog__(p: &Prog, seed: u64, tier: Tier, st: &mut Stats, dual_normals: bool, view_scale: f32) -> Option<(String, String, Value)> {
     let mut rng = Rng::new(seed);
     let rng = &mut rng;
     let max_side = tier.pick(44, 64);
@@ -175,7 +181,15 @@ fn check_prog_(p: &Prog, seed: u64, tier: Tier, st: &mut Stats, dual_normals: bo
         h,
         d,
         tiles,
-        mat: random_mat4(rng),
+        mat: {
+            let mut m = random_mat4(rng);
+            for r in 0..3 {
+                for c in 0..4 {
+                    m[(r, c)] *= view_scale;
+                }
+            }
+            m
+        },
         jit: rng.chance(0.5),
         pool: if rng.chance(0.5) { None } else { Some(rng.below(POOL_SIZES.len())) },
     };
@@ -219,6 +233,20 @@ fn check_with_setup(p: &Prog, su: &Setup, rng: &mut Rng, st: &mut Stats, dual_no
     // the top (to decide which columns are inside the claim)
     let cfg = RenderConfig { image_size: VoxelSize::new(w, h, d), world_to_model: su.mat };
     let m = cfg.mat();
+    // the sample positions below use the renderer's own screen-to-model
+    // matrix (bit-exact positions): it must be the documented map
+    {
+        let rows = |a: &Matrix4<f32>| (0..4).map(|r| (0..4).map(|c| a[(r, c)] as f64).collect::<Vec<_>>()).collect::<Vec<_>>();
+        if let Some(msg) = check_documented_mat(&[w, h, d], &rows(&su.mat), &rows(&m)) {
+            return Some(("sample_position:screen_to_model_matrix".into(), msg, setup_json));
+        }
+    }
+    // scale of the model space seen through this view: 1 for ordinary views
+    // (entries of order 1), the power of two of a rescaled scene otherwise
+    let model_scale = {
+        let s = (0..3).map(|c| su.mat[(0, c)].abs()).fold(0f32, f32::max) / su.mat[(3, 3)].abs();
+        if s > 64.0 || s < 1.0 / 64.0 { (2.0f32).powi(s.log2().round() as i32) } else { 1.0 }
+    };
     let max_tile = su.tiles[0] as u32;
     let top = d.div_ceil(max_tile) * max_tile;
     let zs = top + 1; // indices 0..=top
@@ -265,7 +293,9 @@ fn check_with_setup(p: &Prog, su: &Setup, rng: &mut Rng, st: &mut Stats, dual_no
                     return None;
                 }
             }
-            let band = |k: usize| 1e-5 * pts[k].x.abs().max(pts[k].y.abs()).max(pts[k].z.abs()).max(1.0);
+            // (positions relative to the scale of the model: a scene that
+            // lives at scale s has gradients of order 1/s)
+            let band = |k: usize| 1e-5 * (pts[k].x.abs().max(pts[k].y.abs()).max(pts[k].z.abs()) / model_scale).max(1.0);
             // a NaN voxel is simply not negative (like the renderer's `< 0`
             // test); only the zero band makes a column undecidable
             if vals.iter().enumerate().any(|(k, v)| v.abs() <= band(k)) {
@@ -404,6 +434,9 @@ fn check_with_setup(p: &Prog, su: &Setup, rng: &mut Rng, st: &mut Stats, dual_no
         }
     }
     st.add("columns_judged", judged_cols);
+    if model_scale != 1.0 {
+        st.add("columns_judged_at_extreme_scale", judged_cols);
+    }
     None
 }
 
@@ -482,18 +515,28 @@ impl Prop for C07 {
             let root = push(PNode::Bin(Bin::Min, old, big));
             p.outputs = vec![root];
         }
+        // now and then the whole scene lives at a very different scale (a
+        // model in micrometres or kilometres): scene rescaled by a power of
+        // two, view matrix scaled to match
+        let mut view_scale = 1.0f32;
+        if rng.chance(0.08) {
+            let e = rng.range(8, 24) as i32 * if rng.chance(0.5) { 1 } else { -1 };
+            view_scale = (2.0f32).powi(e);
+            p = shape::rescale(&p, view_scale);
+            st.inc("scenes_at_extreme_scale");
+        }
         st.distinct(p.hash());
         st.sample(|| json!({"shape": p.to_json()}));
         let seed = rng.next_u64();
-        if let Some((sig, msg, detail)) = check_prog(&p, seed, tier, st) {
+        if let Some((sig, msg, detail)) = check_prog(&p, seed, tier, st, view_scale) {
             let mut scratch = Stats::default();
             let sig0 = sig.clone();
             let small = crate::gen_::shrink::shrink(
                 &p,
-                &mut |q: &Prog| matches!(guarded(|| check_prog(q, seed, tier, &mut scratch)), Ok(Some((s, _, _))) if s == sig0),
+                &mut |q: &Prog| matches!(guarded(|| check_prog(q, seed, tier, &mut scratch, view_scale)), Ok(Some((s, _, _))) if s == sig0),
                 60,
             );
-            if let Some((s2, m2, d2)) = check_prog(&small, seed, tier, &mut scratch) {
+            if let Some((s2, m2, d2)) = check_prog(&small, seed, tier, &mut scratch, view_scale) {
                 if s2 == sig {
                     st.violation(case, s2, m2, json!({"detail": d2, "shape": small.to_json(), "check_seed": seed.to_string()}));
                     return;
